@@ -174,6 +174,8 @@ def run(env) -> Result:
                 "such offsets, as member `U u; U w[2]` of packed / aligned outer structures (fixed layout and after a dynamic field, "
                 "interpreted / compiled): consumed bytes == len(U) resp. n * len(U), every member == parse of its type from exactly the "
                 "union's bytes, the following field holds the following byte. "
+                "Unions nested in unions (2 and 3 levels, byte-array views at every level, packed, interpreted / compiled): histories of "
+                "assignments through o.i.s.x / i.rawi / q / raw, after every step dump and every view == the reference buffer. "
                 "distinct = (definition, config, contents, history prefix); non-trivial = history of >= 1 assignment")
     dc = impl.dc()
     rnd = mkrng(env["seed"], "c11")
@@ -410,6 +412,10 @@ def run(env) -> Result:
             if ok_model and not sigs and not state["nan"] and not has(utree, lambda t, d, x: t[0] == "ptr"):
                 lines.append(sx([A("unionhist"), L.cfg_sexp(), impl.real_ty_sexp(utree, U, align), data, ops_model]))
                 metas.append((cdata(hist), bytes(u._buf), [impl.canon(getattr(u, rf._name)) for rf in U.__fields__], u.dumps()))
+    # ---- unions nested in unions, assignments two and three levels deep (real code against a reference buffer; harness/v4_c11.py)
+    from .. import v4_c11
+    v4_c11.run(env, res, viol, mkrng(env["seed"], "c11-nested"), dc)
+
     answers = run_driver(lines) if env["driver_ok"] else [None] * len(lines)
     for (cd, buf, vals, dump), ans in zip(metas, answers):
         if ans is None:
